@@ -315,6 +315,36 @@ func c04Sites(u *universe) []c04Site {
 			return c04TxRAE(r, rae, A, A, "MultiESDTNFTTransfer", tkMulti(X, F, nil, be(3))...)
 		})
 	}
+	// ---- debits of EXACTLY the whole holding (the entry is deleted, not rewritten: the gate must still be passed first) ----
+	S2 := tkKey(S, 2) // U[0] holds 7 of nonce 2, 1000 of every fungible token
+	for _, b := range []c04Block{pau(0, string(S)), pau(0, S2), frz(A, 0, S2, false)} {
+		add("saveESDTNFTToken/ESDTNFTBurn/whole-holding", b, false, nil, func(r *tkRun, rae bool) *stepResult { return c04TxRAE(r, rae, A, A, "ESDTNFTBurn", S, be(2), be(7)) })
+		add("saveESDTNFTToken/ESDTNFTTransfer/sender/cross-shard/whole-holding", b, false, nil, func(r *tkRun, rae bool) *stepResult {
+			return c04TxRAE(r, rae, A, A, "ESDTNFTTransfer", S, be(2), be(7), X)
+		})
+		add("saveESDTNFTToken/ESDTNFTTransfer/sender/same-shard/whole-holding", b, false, nil, func(r *tkRun, rae bool) *stepResult {
+			return c04TxRAE(r, rae, A, A, "ESDTNFTTransfer", S, be(2), be(7), B)
+		})
+		add("saveESDTNFTToken/MultiESDTNFTTransfer/sender/nft-item/cross-shard/whole-holding", b, false, nil, func(r *tkRun, rae bool) *stepResult {
+			return c04TxRAE(r, rae, A, A, "MultiESDTNFTTransfer", tkMulti(X, S, be(2), be(7))...)
+		})
+		add("saveESDTNFTToken/MultiESDTNFTTransfer/sender/nft-item/cross-shard/whole-holding-in-two-items", b, false, nil, func(r *tkRun, rae bool) *stepResult {
+			return c04TxRAE(r, rae, A, A, "MultiESDTNFTTransfer", tkMulti(X, S, be(2), be(3), S, be(2), be(4))...)
+		})
+	}
+	for _, b := range []c04Block{frz(A, 0, string(F), true), pau(0, string(F))} {
+		add("saveESDTNFTToken/MultiESDTNFTTransfer/sender/fungible-item/cross-shard/whole-holding", b, false, nil, func(r *tkRun, rae bool) *stepResult {
+			return c04TxRAE(r, rae, A, A, "MultiESDTNFTTransfer", tkMulti(X, F, nil, be(1000))...)
+		})
+		add("saveESDTNFTToken/MultiESDTNFTTransfer/sender/fungible-item/same-shard/whole-holding", b, false, nil, func(r *tkRun, rae bool) *stepResult {
+			return c04TxRAE(r, rae, A, A, "MultiESDTNFTTransfer", tkMulti(B, F, nil, be(1000))...)
+		})
+		add("addToESDTBalance/ESDTTransfer/sender/cross-shard/whole-holding", b, false, nil, func(r *tkRun, rae bool) *stepResult {
+			return c04TxRAE(r, rae, A, X, "ESDTTransfer", F, be(1000))
+		})
+		add("addToESDTBalance/ESDTLocalBurn/whole-holding", b, false, nil, func(r *tkRun, rae bool) *stepResult { return c04TxRAE(r, rae, A, A, "ESDTLocalBurn", F, be(1000)) })
+		add("addToESDTBalance/ESDTBurn/whole-holding", b, false, nil, func(r *tkRun, rae bool) *stepResult { return c04TxRAE(r, rae, A, u.SC, "ESDTBurn", F, be(1000)) })
+	}
 	// ---- esdtNFTTransfer.addNFTToDestination ----
 	nftSame := func(r *tkRun, rae bool) *stepResult {
 		return c04TxRAE(r, rae, A, A, "ESDTNFTTransfer", S, be(1), be(2), B)
@@ -548,20 +578,20 @@ func init() {
 		c.stateProj = "sp_balances_flags" // the part of the state this property's theorems speak about
 		u := newUniverse()
 		proj := tkProj(false, true)
-		c.rep.Rule = "(1) one scenario family per call site of checkFrozeAndPause (addToESDTBalance; saveESDTNFTToken incl. its second, full-key lookup; esdtNFTTransfer.addNFTToDestination; esdtNFTMultiTransfer.addNFTToDestination) x function x sender / destination side x same / cross shard (destination side through delivery of the real message) x {account frozen, token paused, full key paused}, each on four clones of one world: never blocked (control), blocked, flag set and cleared again (must decide and move balances exactly like the control), blocked with ReturnCallAfterError or refund into a frozen+paused sender (exemptions); on two worlds (system-account address living on shard 0 / shard 1); wipe / unfreeze / unpause by the system contract and by users; repeated and alternating flag operations (freeze;freeze / pause;pause / unfreeze;unfreeze / freeze;unfreeze;freeze / freeze;wipe;freeze / ... on the sender, a same-shard and a cross-shard destination, fungible key and SFT key) each followed by transfers in both directions, mint, add-quantity, NFT and multi transfers and deliveries; the frozen holding of the system-account address itself followed by ESDTPause / ESDTUnPause (known finding F8). extra.site_hits counts, per site, the scenarios in which the control was accepted and the blocked call was refused with the frozen / paused error. " +
+		c.rep.Rule = "(1) one scenario family per call site of checkFrozeAndPause (addToESDTBalance; saveESDTNFTToken incl. its second, full-key lookup; esdtNFTTransfer.addNFTToDestination; esdtNFTMultiTransfer.addNFTToDestination) x function x sender / destination side x same / cross shard (destination side through delivery of the real message) x {account frozen, token paused, full key paused}, each incl. debits of exactly the whole holding (ESDTNFTBurn, NFT / multi transfers same and cross shard, fungible legs, burns), each on four clones of one world: never blocked (control), blocked, flag set and cleared again (must decide and move balances exactly like the control), blocked with ReturnCallAfterError or refund into a frozen+paused sender (exemptions); on two worlds (system-account address living on shard 0 / shard 1); wipe / unfreeze / unpause by the system contract and by users; repeated and alternating flag operations (freeze;freeze / pause;pause / unfreeze;unfreeze / freeze;unfreeze;freeze / freeze;wipe;freeze / ... on the sender, a same-shard and a cross-shard destination, fungible key and SFT key) each followed by transfers in both directions, mint, add-quantity, NFT and multi transfers and deliveries; the frozen holding of the system-account address itself followed by ESDTPause / ESDTUnPause (known finding F8). extra.site_hits counts, per site, the scenarios in which the control was accepted and the blocked call was refused with the frozen / paused error. " +
 			"(2) random walks weighted to freeze / unfreeze / pause / unpause / wipe interleaved with transfers, deliveries, refunds, supply functions and hostile calls. The monitor also keeps, per world, the flags as the HISTORY of successful system-contract operations says they must be (Freeze -> frozen; UnFreeze, Wipe -> not frozen; Pause / UnPause), checks after each such operation that the stored flag agrees (flag-not-set / flag-not-cleared), and uses the history view in addition to the stored one below. After EVERY executed call the monitor reads the flags from the pre-state of the executing shard (frozen bit of the account's fungible entry; 2-byte pause value under ELRONDesdt‖token and ELRONDesdt‖token‖nonce in the shard's system account) and fails if a successful call changed such a balance, except wipe/unfreeze/unpause by the system contract, ReturnCallAfterError calls and the ESDT system contract's own account. " +
 			"Every executed call is re-executed by the Coq model (projection: status + complete post-state). distinct = distinct (world state, operation)."
 		c.tkBegin(proj)
 		quick := !(c.thorough() || c.widen)
-		budget := &tkBudget{max: 1300}
+		budget := &tkBudget{max: 1000, every: 2}
 		if !quick {
-			budget.max = 4000
+			budget = &tkBudget{max: 5000}
 		}
 		hits, misses := map[string]int{}, map[string]int{}
 		c04RunSites(c, u, budget, hits, misses)
 		c04SystemOnly(c, u, &tkBudget{max: 40})
 		c04SystemAccountHolding(c, u, &tkBudget{max: 10})
-		c04Repeats(c, u, &tkBudget{max: 500, every: 2})
+		c04Repeats(c, u, &tkBudget{max: 400, every: 3})
 		perSite := map[string]int{}
 		for k, v := range hits {
 			perSite[strings.SplitN(k, "/", 2)[0]] += v
